@@ -2,6 +2,7 @@ import LyModel.XsdRe.SemLemmas
 import LyModel.XsdRe.MceLemmas
 import LyModel.XsdRe.SemMceLemmas
 import LyModel.XsdRe.SemSubLemmas
+import LyModel.XsdRe.SemNegLemmas
 import LyModel.XsdRe.MceSem
 import LyModel.XsdRe.RenderLemmas
 import LyModel.XsdRe.Lemmas
@@ -135,14 +136,12 @@ def InFragment (p : Pat) : Bool := p.Canon && p.inDialect .pcre && p.noNul && p.
     backslash -/
 theorem source_table_letters : ∀ e ∈ Generated.UBlocks.mceTable, e.1 ∈ mceLetters := by decide
 
-/-- the model of the source as it is now (with or without fixes/F181.diff, F182.diff, F183.diff) maps the canonical XSD text
-    of a fragment pattern to its canonical PCRE text -/
+/-- the model of the source as it is now (with or without fixes/F181.diff, F182.diff, F183.diff, F185.diff: escape table,
+    subtraction code and negated-block pass as extracted) maps the canonical XSD text of a fragment pattern to its canonical
+    PCRE text -/
 theorem rewriteSrc_render (fx : Fixes) (p : Pat) (hwf : p.wf = true) (hd : p.inDialect .pcre = true) (hn : p.noNul = true)
-    (hb : p.noClsBrace = true) : rewriteSrc fx (utf8 (p.render .xsd)) = .ok (utf8 (p.render .pcre)) := by
-  unfold rewriteSrc
-  split
-  · exact rewriteS_render Generated.UBlocks.mceTable source_table_letters fx p hwf hd hn hb
-  · exact rewriteM_render Generated.UBlocks.mceTable source_table_letters fx p hwf hd hn hb
+    (hb : p.noClsBrace = true) : rewriteSrc fx (utf8 (p.render .xsd)) = .ok (utf8 (p.render .pcre)) :=
+  LyModel.XsdRe.rewriteSrc_render fx p hwf hd hn hb
 
 /-- **The rewrite preserves the language.**  For every XSD regular expression `p` of the fragment, take its canonical text
     (which the XSD parser reads back to `p`): the model of `lys_compile_type_pattern_check` — in every state of the five
@@ -298,6 +297,28 @@ theorem subtraction_switch_off (tbl : List (UInt8 × Bytes)) (fx : Fixes) (b : N
 
 -- non-vacuity: `[a\-[b]` has an ESCAPED dash: no trigger
 example : noSubTrig 0 false [91, 97, 92, 45, 91, 98, 93] = true := by decide
+
+/-! ## fixes/F185.diff: negated block escapes outside a class -/
+
+/-- **With the repair, `\P{IsNAME}` outside every character class becomes `[^\p{IsNAME}]`** before pass 1 (pass 2 then
+    substitutes the range of NAME without its brackets: `C18.block_subst_correct`, depth ≠ 0) — for any text `pre` before it
+    that contains no such escape itself and ends outside a class and outside an escape; inside a class and behind an
+    escaped backslash nothing is touched (`negBlocksLoop_id`). -/
+theorem negated_block_fixed (pre name post : Bytes) (hpre : noNegTrig 0 false pre = true) (hend : negEnd 0 false pre = (0, false))
+    (hname : bRBrace ∉ name) (hn : ∀ x ∈ name, x ≠ bBackslash ∧ x ≠ bOpen ∧ x ≠ bClose) :
+    negBlocksLoop 0 false false (pre ++ [92, 80, 123, 73, 115] ++ name ++ bRBrace :: post) =
+      pre ++ [91, 94, 92, 112, 123, 73, 115] ++ name ++ [bRBrace, bClose] ++ negBlocksLoop 0 false false post :=
+  negBlocksLoop_at pre name post hpre hend hname hn
+
+/-- … and a text without such an escape outside a class is left alone -/
+theorem negated_block_switch_off (s : Bytes) (h : noNegTrig 0 false s = true) : negBlocksLoop 0 false false s = s := by
+  have := negBlocksLoop_id s 0 false h
+  simpa using this
+
+-- non-vacuity: `a[\P{IsX}]\P{IsGreek}+` ↦ `a[\P{IsX}][^\p{IsGreek}]+` and, with pass 1 and 2, `a[\P{IsX}][^\x{0370}-\x{03FF}]+`
+example : negBlocksLoop 0 false false (utf8 "a[\\P{IsX}]\\P{IsGreek}+".toList) = utf8 "a[\\P{IsX}][^\\p{IsGreek}]+".toList := by decide +kernel
+example : rewriteWithM [] Fixes.all (prePass true (utf8 "x\\P{IsGreek}+".toList)) = .ok (utf8 "x[^\\x{0370}-\\x{03FF}]+".toList) := by decide +kernel
+example : noNegTrig 0 false (utf8 "[\\P{IsGreek}]\\\\P{IsGreek}".toList) = true := by decide +kernel
 
 /-- pass 1 has no other error than the stray bracket, with any table; so the whole rewrite neither crashes (F1 repaired) nor
     runs out of fuel -/
